@@ -216,20 +216,22 @@ theorem insertTagged_wf {t : Tagged Spec} {m : List (Tagged Spec)} (hm : wfTagge
     exact ⟨tagsOfT_filter_ne t.tag m, (tagsOfT_filter _ m hm.1).1⟩
   · rw [wfT, ht, wfT_filter _ m hm.2]; rfl
 
-theorem arrayDims_wf : ∀ (n : Nat) (base : Spec) (toks : List ATok), toks.length ≤ n → wfSpec base = true →
-    RPost (arrayDims base toks) (fun sp => wfSpec sp = true)
-  | 0, base, toks, h, hb => by
+theorem arrayDims_wf : ∀ (n : Nat) (depth levels : Nat) (base : Spec) (toks : List ATok), toks.length ≤ n →
+    wfSpec base = true → RPost (arrayDims depth levels base toks) (fun sp => wfSpec sp = true)
+  | 0, depth, levels, base, toks, h, hb => by
     cases toks with
     | nil => unfold arrayDims; exact RPost.ok hb
     | cons _ _ => simp at h
-  | n + 1, base, toks, h, hb => by
+  | n + 1, depth, levels, base, toks, h, hb => by
     unfold arrayDims
     split
     · split
       · split
-        · rename_i rest''
-          simp only [List.length_cons] at h
-          exact arrayDims_wf n _ rest'' (by omega) (by rw [wfSpec]; exact hb)
+        · split
+          · rename_i rest''
+            simp only [List.length_cons] at h
+            exact arrayDims_wf n _ _ _ rest'' (by omega) (by rw [wfSpec]; exact hb)
+          · exact RPost.err
         · exact RPost.err
       · exact RPost.err
     · exact RPost.ok hb
@@ -248,36 +250,36 @@ theorem typeEnum_wf (types : TypeSet) (toks : List ATok) : RPost (typeEnum types
       · exact RPost.err
     · exact RPost.err
 
-def WType (f : Nat) : Prop := ∀ types tok toks, TypesWf types → RPost (type_ f types tok toks) (fun r => wfSpec r.2 = true)
-def WSLoop (f : Nat) : Prop := ∀ types acc toks, TypesWf types → wfL acc = true →
-  RPost (structLoop f types acc toks) (fun items => wfL items = true)
-def WTLoop (f : Nat) : Prop := ∀ types ar acc toks, TypesWf types → wfTagged acc →
-  RPost (taggedLoop f types ar acc toks) wfTagged
-def WTMem (f : Nat) : Prop := ∀ types ar toks, TypesWf types → RPost (taggedMember f types ar toks) (fun t => wfSpec t.item = true)
-def WTDef (f : Nat) : Prop := ∀ types toks, TypesWf types → RPost (taggedDef f types toks) (fun sp => wfSpec sp = true)
-def WMem (f : Nat) : Prop := ∀ types toks, TypesWf types → RPost (member f types toks) (fun sp => wfSpec sp = true)
+def WType (f : Nat) : Prop := ∀ types d tok toks, TypesWf types → RPost (type_ f types d tok toks) (fun r => wfSpec r.2 = true)
+def WSLoop (f : Nat) : Prop := ∀ types d acc toks, TypesWf types → wfL acc = true →
+  RPost (structLoop f types d acc toks) (fun items => wfL items = true)
+def WTLoop (f : Nat) : Prop := ∀ types d ar acc toks, TypesWf types → wfTagged acc →
+  RPost (taggedLoop f types d ar acc toks) wfTagged
+def WTMem (f : Nat) : Prop := ∀ types d ar toks, TypesWf types → RPost (taggedMember f types d ar toks) (fun t => wfSpec t.item = true)
+def WTDef (f : Nat) : Prop := ∀ types d toks, TypesWf types → RPost (taggedDef f types d toks) (fun sp => wfSpec sp = true)
+def WMem (f : Nat) : Prop := ∀ types d toks, TypesWf types → RPost (member f types d toks) (fun sp => wfSpec sp = true)
 
 theorem wmember_step (f : Nat) (ih : WType f) : WMem (f + 1) := by
-  intro types toks hw
+  intro types d toks hw
   rw [member.eq_def]
   dsimp only
   split
   · exact RPost.err
   · rename_i tok rest
-    have h1 := ih types tok rest hw
+    have h1 := ih types d tok rest hw
     split
     · rename_i nm base rest1 heq
-      exact arrayDims_wf rest1.length base rest1 (Nat.le_refl _) (h1 _ _ heq)
+      exact arrayDims_wf rest1.length _ _ base rest1 (Nat.le_refl _) (h1 _ _ heq)
     · exact RPost.err
     · exact RPost.fuel
 
 theorem wtaggedDef_step (f : Nat) (ih : WMem f) : WTDef (f + 1) := by
-  intro types toks hw
+  intro types d toks hw
   rw [taggedDef.eq_def]
   dsimp only
   split
   · rename_i rest
-    have h1 := ih types rest hw
+    have h1 := ih types (d + 1) rest hw
     split
     · rename_i m rest1 heq
       split
@@ -287,7 +289,7 @@ theorem wtaggedDef_step (f : Nat) (ih : WMem f) : WTDef (f + 1) := by
       · exact RPost.err
     · exact RPost.err
     · exact RPost.fuel
-  · exact ih types toks hw
+  · exact ih types d toks hw
 
 theorem tagClose_wf (rep : Bool) (t : Tagged Spec) (rest : List ATok) (h : wfSpec t.item = true) :
     RPost (tagClose rep t rest) (fun t => wfSpec t.item = true) := by
@@ -301,7 +303,7 @@ theorem tagClose_wf (rep : Bool) (t : Tagged Spec) (rest : List ATok) (h : wfSpe
   · exact RPost.ok h
 
 theorem wtaggedMember_step (f : Nat) (ih : WTDef f) : WTMem (f + 1) := by
-  intro types ar toks hw
+  intro types d ar toks hw
   rw [taggedMember.eq_def]
   dsimp only
   split
@@ -320,32 +322,32 @@ theorem wtaggedMember_step (f : Nat) (ih : WTDef f) : WTMem (f + 1) := by
             split at heq
             · cases heq; rfl
             · cases heq; rfl
-            · exact ih types _ hw _ _ heq
+            · exact ih types d _ hw _ _ heq
           · exact RPost.err
           · exact RPost.fuel
         · exact RPost.err
 
 theorem wtaggedLoop_step (f : Nat) (ih1 : WTMem f) (ih2 : WTLoop f) : WTLoop (f + 1) := by
-  intro types ar acc toks hw hacc
+  intro types d ar acc toks hw hacc
   rw [taggedLoop.eq_def]
   dsimp only
-  have h1 := ih1 types ar toks hw
+  have h1 := ih1 types d ar toks hw
   split
   · rename_i m rest heq
     have hm := h1 _ _ heq
     split
     · split
       · exact RPost.ok (insertTagged_wf hacc hm)
-      · exact ih2 types ar (insertTagged m acc) _ hw (insertTagged_wf hacc hm)
+      · exact ih2 types d ar (insertTagged m acc) _ hw (insertTagged_wf hacc hm)
     · exact RPost.err
   · exact RPost.err
   · exact RPost.fuel
 
 theorem wstructLoop_step (f : Nat) (ih1 : WMem f) (ih2 : WSLoop f) : WSLoop (f + 1) := by
-  intro types acc toks hw hacc
+  intro types d acc toks hw hacc
   rw [structLoop.eq_def]
   dsimp only
-  have h1 := ih1 types toks hw
+  have h1 := ih1 types d toks hw
   split
   · rename_i m rest heq
     have hm := h1 _ _ heq
@@ -353,85 +355,93 @@ theorem wstructLoop_step (f : Nat) (ih1 : WMem f) (ih2 : WSLoop f) : WSLoop (f +
     split
     · split
       · exact RPost.ok (by rw [wfL_reverse]; exact hma)
-      · exact ih2 types (m :: acc) _ hw hma
+      · exact ih2 types d (m :: acc) _ hw hma
     · exact RPost.err
   · exact RPost.err
   · exact RPost.fuel
 
 theorem wtype_step (f : Nat) (ih1 : WSLoop f) (ih2 : WTLoop f) : WType (f + 1) := by
-  intro types tok toks hw
+  intro types d tok toks hw
   rw [type_.eq_def]
   dsimp only
   split
-  iterate 10 exact RPost.ok rfl
-  · exact typeEnum_wf types toks
-  · generalize optionalName toks = nt
-    obtain ⟨name, toks'⟩ := nt
-    dsimp only
-    split
-    · rename_i rest
-      have h1 := ih1 types [] rest hw rfl
+  · split
+    iterate 10 exact RPost.ok rfl
+    · exact typeEnum_wf types toks
+    · generalize optionalName toks = nt
+      obtain ⟨name, toks'⟩ := nt
+      dsimp only
       split
-      · rename_i items rest' heq
-        exact RPost.ok (by dsimp only; rw [wfSpec]; simpa [wfL_reverse] using h1 _ _ heq)
-      · exact RPost.err
-      · exact RPost.fuel
-    · split
-      · split
-        · rename_i n items heq
-          obtain ⟨kv, hkv, he⟩ := lookupKV_mem heq
-          exact RPost.ok (by dsimp only; rw [← he]; exact hw.1 kv hkv)
+      · rename_i rest
+        have h1 := ih1 types (d + 1) [] rest hw rfl
+        split
+        · rename_i items rest' heq
+          exact RPost.ok (by dsimp only; rw [wfSpec]; simpa [wfL_reverse] using h1 _ _ heq)
         · exact RPost.err
-      · exact RPost.err
-  · generalize optionalName toks = nt
-    obtain ⟨name, toks'⟩ := nt
-    dsimp only
-    split
-    · rename_i rest
-      have h1 := ih2 types true [] rest hw ⟨rfl, rfl⟩
+        · exact RPost.fuel
+      · split
+        · split
+          · rename_i n items heq
+            obtain ⟨kv, hkv, he⟩ := lookupKV_mem heq
+            split
+            · exact RPost.ok (by dsimp only; rw [← he]; exact hw.1 kv hkv)
+            · exact RPost.err
+          · exact RPost.err
+        · exact RPost.err
+    · generalize optionalName toks = nt
+      obtain ⟨name, toks'⟩ := nt
+      dsimp only
       split
-      · rename_i items rest' heq
-        have := h1 _ _ heq
-        exact RPost.ok (by dsimp only; rw [wfSpec, this.1, this.2]; rfl)
-      · exact RPost.err
-      · exact RPost.fuel
-    · split
-      · split
-        · rename_i n items heq
-          obtain ⟨kv, hkv, he⟩ := lookupKV_mem heq
-          exact RPost.ok (by dsimp only; rw [← he]; exact hw.2.1 kv hkv)
+      · rename_i rest
+        have h1 := ih2 types (d + 1) true [] rest hw ⟨rfl, rfl⟩
+        split
+        · rename_i items rest' heq
+          have := h1 _ _ heq
+          exact RPost.ok (by dsimp only; rw [wfSpec, this.1, this.2]; rfl)
         · exact RPost.err
-      · exact RPost.err
-  · generalize optionalName toks = nt
-    obtain ⟨name, toks'⟩ := nt
-    dsimp only
-    split
-    · rename_i rest
-      have h1 := ih2 types false [] rest hw ⟨rfl, rfl⟩
+        · exact RPost.fuel
+      · split
+        · split
+          · rename_i n items heq
+            obtain ⟨kv, hkv, he⟩ := lookupKV_mem heq
+            split
+            · exact RPost.ok (by dsimp only; rw [← he]; exact hw.2.1 kv hkv)
+            · exact RPost.err
+          · exact RPost.err
+        · exact RPost.err
+    · generalize optionalName toks = nt
+      obtain ⟨name, toks'⟩ := nt
+      dsimp only
       split
-      · rename_i items rest' heq
-        have := h1 _ _ heq
-        exact RPost.ok (by dsimp only; rw [wfSpec, this.1, this.2]; rfl)
-      · exact RPost.err
-      · exact RPost.fuel
-    · split
-      · split
-        · rename_i n items heq
-          obtain ⟨kv, hkv, he⟩ := lookupKV_mem heq
-          exact RPost.ok (by dsimp only; rw [← he]; exact hw.2.2 kv hkv)
+      · rename_i rest
+        have h1 := ih2 types (d + 1) false [] rest hw ⟨rfl, rfl⟩
+        split
+        · rename_i items rest' heq
+          have := h1 _ _ heq
+          exact RPost.ok (by dsimp only; rw [wfSpec, this.1, this.2]; rfl)
         · exact RPost.err
-      · exact RPost.err
+        · exact RPost.fuel
+      · split
+        · split
+          · rename_i n items heq
+            obtain ⟨kv, hkv, he⟩ := lookupKV_mem heq
+            split
+            · exact RPost.ok (by dsimp only; rw [← he]; exact hw.2.2 kv hkv)
+            · exact RPost.err
+          · exact RPost.err
+        · exact RPost.err
+    · exact RPost.err
   · exact RPost.err
 
 theorem all_wf : ∀ f, WType f ∧ WSLoop f ∧ WTLoop f ∧ WTMem f ∧ WTDef f ∧ WMem f
   | 0 => by
     refine ⟨?_, ?_, ?_, ?_, ?_, ?_⟩
-    · intro types tok toks _; unfold type_; exact RPost.fuel
-    · intro types acc toks _ _; unfold structLoop; exact RPost.fuel
-    · intro types ar acc toks _ _; unfold taggedLoop; exact RPost.fuel
-    · intro types ar toks _; unfold taggedMember; exact RPost.fuel
-    · intro types toks _; unfold taggedDef; exact RPost.fuel
-    · intro types toks _; unfold member; exact RPost.fuel
+    · intro types d tok toks _; unfold type_; exact RPost.fuel
+    · intro types d acc toks _ _; unfold structLoop; exact RPost.fuel
+    · intro types d ar acc toks _ _; unfold taggedLoop; exact RPost.fuel
+    · intro types d ar toks _; unfold taggedMember; exact RPost.fuel
+    · intro types d toks _; unfold taggedDef; exact RPost.fuel
+    · intro types d toks _; unfold member; exact RPost.fuel
   | f + 1 =>
     have ⟨h1, h2, h3, h4, h5, h6⟩ := all_wf f
     ⟨wtype_step f h2 h3, wstructLoop_step f h6 h2, wtaggedLoop_step f h4 h3, wtaggedMember_step f h5,
@@ -461,12 +471,12 @@ theorem typesWf_insert {types : TypeSet} (hw : TypesWf types) {name : List Char}
 theorem declStep_wf (fuel : Nat) (types : TypeSet) (ifdata : Option Spec) (tok : ATok) (rest : List ATok)
     (hw : TypesWf types) (ho : OptWf ifdata) :
     RPost (declStep fuel types ifdata tok rest) (fun r => TypesWf r.1 ∧ OptWf r.2) := by
-  have hty := (all_wf fuel).1 types tok rest hw
+  have hty := (all_wf fuel).1 types 0 tok rest hw
   unfold declStep
   split
   · split
     · rename_i tg rest1
-      have h1 := (all_wf fuel).2.2.2.2.1 types rest1 hw
+      have h1 := (all_wf fuel).2.2.2.2.1 types 0 rest1 hw
       split
       · rename_i blk rest2 heq
         refine RPost.ok ⟨hw, ?_⟩
